@@ -209,12 +209,18 @@ func (r *Report) emit(verifDir string, known *KnownFile, seed int64, wall float6
 			}
 		}
 	}
-	for _, o := range knownHit {
-		f := knownKeys[o.BaseKey()]
-		if strings.HasSuffix(o.Construct, " [GOARCH=386]") {
-			continue // already printed for the primary platform
+	printed := map[string]bool{}
+	for _, o := range knownHit { // the primary platform first, a finding met only in the GOARCH=386 pass after it
+		if !strings.HasSuffix(o.Construct, " [GOARCH=386]") {
+			printed[o.BaseKey()] = true
+			fmt.Printf("KNOWN-FINDING: property=%s rule=%s site=%s %s\n", r.Prop, o.Rule, o.Site, knownKeys[o.BaseKey()].What)
 		}
-		fmt.Printf("KNOWN-FINDING: property=%s rule=%s site=%s %s\n", r.Prop, o.Rule, o.Site, f.What)
+	}
+	for _, o := range knownHit {
+		if strings.HasSuffix(o.Construct, " [GOARCH=386]") && !printed[o.BaseKey()] {
+			printed[o.BaseKey()] = true
+			fmt.Printf("KNOWN-FINDING: property=%s rule=%s site=%s [GOARCH=386] %s\n", r.Prop, o.Rule, o.Site, knownKeys[o.BaseKey()].What)
+		}
 	}
 	exit := 0
 	writeReplay := func(o Ob, i int) string {
